@@ -662,17 +662,22 @@ pub fn apply_b<'b, T: El>(b: &'b Bump, v: &mut BVec<'b, T>, op: &VOp, kept: &mut
         }
         VOp::CollectInShort(ks, stop, mode) => {
             use bumpalo::collections::CollectIn;
+            // items at `stop` and at a second, later index are errors (with different payloads); the source
+            // counts how many items were pulled out of it: collecting stops at the FIRST error
             let stop = *stop;
-            let items = kiter::<T>(ks, ks.len() % 2 == 0).enumerate();
+            let stop2 = stop + 1 + stop % 3;
+            let pulled = std::cell::Cell::new(0u32);
+            let items = kiter::<T>(ks, ks.len() % 2 == 0).enumerate().inspect(|_| pulled.set(pulled.get() + 1));
+            let bad = |i: usize| i == stop || i == stop2;
             let got: Result<BVec<'b, T>, u32> = match mode {
-                0 => items.map(|(i, x)| if i == stop { Err(x.key()) } else { Ok(x) }).collect_in::<Result<BVec<'b, T>, u32>>(b),
-                1 => items.map(|(i, x)| if i == stop { None } else { Some(x) }).collect_in::<Option<BVec<'b, T>>>(b).ok_or(0),
+                0 => items.map(|(i, x)| if bad(i) { Err(x.key() + 1000 * i as u32) } else { Ok(x) }).collect_in::<Result<BVec<'b, T>, u32>>(b),
+                1 => items.map(|(i, x)| if bad(i) { None } else { Some(x) }).collect_in::<Option<BVec<'b, T>>>(b).ok_or(0),
                 2 => items
-                    .map(|(i, x)| if i == stop { Err(x.key()) } else { Ok(x) })
+                    .map(|(i, x)| if bad(i) { Err(x.key() + 1000 * i as u32) } else { Ok(x) })
                     .collect_in::<Result<bumpalo::boxed::Box<'b, [T]>, u32>>(b)
                     .map(|bx| box_to_vec(bx, b)),
                 _ => items
-                    .map(|(i, x)| if i == stop { None } else { Some(x) })
+                    .map(|(i, x)| if bad(i) { None } else { Some(x) })
                     .collect_in::<Option<bumpalo::boxed::Box<'b, [T]>>>(b)
                     .map(|bx| box_to_vec(bx, b))
                     .ok_or(0),
@@ -681,9 +686,9 @@ pub fn apply_b<'b, T: El>(b: &'b Bump, v: &mut BVec<'b, T>, op: &VOp, kept: &mut
                 Ok(n) => {
                     let old = std::mem::replace(v, n);
                     drop(old);
-                    Res::Key(None)
+                    Res::Keys(vec![u32::MAX, pulled.get()])
                 }
-                Err(e) => Res::Key(Some(e)),
+                Err(e) => Res::Keys(vec![e, pulled.get()]),
             }
         }
         VOp::MacroList(ks) => {
@@ -1067,20 +1072,23 @@ pub fn apply_s<T: El>(v: &mut Vec<T>, op: &VOp, sboxes: &mut Vec<Box<[T]>>) -> R
         }
         VOp::CollectInShort(ks, stop, mode) => {
             let stop = *stop;
-            let items = kiter::<T>(ks, ks.len() % 2 == 0).enumerate();
+            let stop2 = stop + 1 + stop % 3;
+            let pulled = std::cell::Cell::new(0u32);
+            let items = kiter::<T>(ks, ks.len() % 2 == 0).enumerate().inspect(|_| pulled.set(pulled.get() + 1));
+            let bad = |i: usize| i == stop || i == stop2;
             let got: Result<Vec<T>, u32> = match mode {
-                0 => items.map(|(i, x)| if i == stop { Err(x.key()) } else { Ok(x) }).collect::<Result<Vec<T>, u32>>(),
-                1 => items.map(|(i, x)| if i == stop { None } else { Some(x) }).collect::<Option<Vec<T>>>().ok_or(0),
-                2 => items.map(|(i, x)| if i == stop { Err(x.key()) } else { Ok(x) }).collect::<Result<Box<[T]>, u32>>().map(|bx| bx.into_vec()),
-                _ => items.map(|(i, x)| if i == stop { None } else { Some(x) }).collect::<Option<Box<[T]>>>().map(|bx| bx.into_vec()).ok_or(0),
+                0 => items.map(|(i, x)| if bad(i) { Err(x.key() + 1000 * i as u32) } else { Ok(x) }).collect::<Result<Vec<T>, u32>>(),
+                1 => items.map(|(i, x)| if bad(i) { None } else { Some(x) }).collect::<Option<Vec<T>>>().ok_or(0),
+                2 => items.map(|(i, x)| if bad(i) { Err(x.key() + 1000 * i as u32) } else { Ok(x) }).collect::<Result<Box<[T]>, u32>>().map(|bx| bx.into_vec()),
+                _ => items.map(|(i, x)| if bad(i) { None } else { Some(x) }).collect::<Option<Box<[T]>>>().map(|bx| bx.into_vec()).ok_or(0),
             };
             match got {
                 Ok(n) => {
                     let old = std::mem::replace(v, n);
                     drop(old);
-                    Res::Key(None)
+                    Res::Keys(vec![u32::MAX, pulled.get()])
                 }
-                Err(e) => Res::Key(Some(e)),
+                Err(e) => Res::Keys(vec![e, pulled.get()]),
             }
         }
         VOp::MacroList(ks) => {
